@@ -362,7 +362,7 @@ def e2_size(nl):
 def plans(ctx):
     """the families of a tier (all random choices are made here, in a fixed order)"""
     if ctx.quick:
-        nl2, step, npick, nlp = 4, 149, 5000, 5
+        nl2, step, npick, nlp = 4, 251, 3000, 5
     else:
         nl2, step, npick, nlp = 7, 23, 60000, 6
     return [
@@ -370,7 +370,7 @@ def plans(ctx):
         # every expression of depth <= 1 over all eight leaves, arity <= 3; TT vs UPExpr!Eval lemma
         dict(label="d1", fam="d1", nl=8, lemma=True, workers=2),
         # every not / binary operator over B1(nl2 leaves): depth <= 2, exhaustive
-        dict(label="d2", fam="d2", nl=nl2, workers=8),
+        dict(label="d2", fam="d2", nl=nl2, workers=12),
         # ternary and / or over B1(4 leaves): a regular 1-in-step slice (offset from the seed)
         dict(label="d2t", fam="d2t", nl=4, step=step, off=ctx.rng.randrange(step), workers=4),
         # depth 3, sampled: one operator over children drawn uniformly from E2(nlp leaves)
